@@ -285,6 +285,39 @@ func (ps *pathState) refine(c *smt.Term, val bool) {
 func (ps *pathState) forcedByDomain(c *smt.Term) int {
 	bt := singleByteTable(c)
 	if bt == nil {
+		// a conjunction/disjunction of byte conditions may still be settled by one operand
+		switch c.Op {
+		case smt.OpAnd:
+			all := true
+			for _, a := range c.Args {
+				switch ps.forcedByDomain(a) {
+				case 0:
+					return 0
+				case -1:
+					all = false
+				}
+			}
+			if all {
+				return 1
+			}
+		case smt.OpOr:
+			all := true
+			for _, a := range c.Args {
+				switch ps.forcedByDomain(a) {
+				case 1:
+					return 1
+				case -1:
+					all = false
+				}
+			}
+			if all {
+				return 0
+			}
+		case smt.OpNot:
+			if f := ps.forcedByDomain(c.Args[0]); f >= 0 {
+				return 1 - f
+			}
+		}
 		return -1
 	}
 	d := ps.domain(bt.v)
